@@ -54,20 +54,31 @@ fn c01_heap_certificate_chain() {
     }
 }
 
+/// Sink that only counts bytes (no loop): the text itself is not examined by these harnesses.
+pub struct CountSink {
+    pub len: usize,
+}
+impl Write for CountSink {
+    fn write_str(&mut self, s: &str) -> core::fmt::Result {
+        self.len += s.len();
+        Ok(())
+    }
+}
+
 /// Display and Debug of every code-point newtype return for every value of the domain.
 macro_rules! fmt8 {
     ($name:ident, [$($t:path),*]) => {
         #[kani::proof]
-        #[kani::unwind(40)]
+        #[kani::unwind(12)]
         fn $name() {
             let v: u8 = kani::any();
             $(
-                let mut s = Sink::new();
+                let mut s = CountSink { len: 0 };
                 let _ = write!(s, "{}", $t(v));
-                vassert!(s.len > 0 && !s.overflow, "C01.fmt.display_returns_text");
-                let mut s = Sink::new();
+                vassert!(s.len > 0, "C01.fmt.display_returns_text");
+                let mut s = CountSink { len: 0 };
                 let _ = write!(s, "{:?}", $t(v));
-                vassert!(s.len > 0 && !s.overflow, "C01.fmt.debug_returns_text");
+                vassert!(s.len > 0, "C01.fmt.debug_returns_text");
             )*
             vcover!(v == 0xff, "C01.cover.fmt_ff");
         }
@@ -76,16 +87,16 @@ macro_rules! fmt8 {
 macro_rules! fmt16 {
     ($name:ident, [$($t:path),*]) => {
         #[kani::proof]
-        #[kani::unwind(60)]
+        #[kani::unwind(12)]
         fn $name() {
             let v: u16 = kani::any();
             $(
-                let mut s = Sink::new();
+                let mut s = CountSink { len: 0 };
                 let _ = write!(s, "{}", $t(v));
-                vassert!(s.len > 0 && !s.overflow, "C01.fmt.display_returns_text");
-                let mut s = Sink::new();
+                vassert!(s.len > 0, "C01.fmt.display_returns_text");
+                let mut s = CountSink { len: 0 };
                 let _ = write!(s, "{:?}", $t(v));
-                vassert!(s.len > 0 && !s.overflow, "C01.fmt.debug_returns_text");
+                vassert!(s.len > 0, "C01.fmt.debug_returns_text");
             )*
             vcover!(v == 0xffff, "C01.cover.fmt_ffff");
         }
@@ -96,40 +107,29 @@ fmt8!(c01_fmt_u8_b, [tp::TlsAlertSeverity, tp::TlsAlertDescription, tp::SNIType]
 fmt8!(c01_fmt_u8_c, [tp::HashAlgorithm, tp::SignAlgorithm, tp::CertificateStatusType, tp::CtVersion]);
 fmt16!(c01_fmt_u16_a, [tp::TlsVersion, tp::NamedGroup]);
 #[kani::proof]
-#[kani::unwind(40)]
+#[kani::unwind(12)]
 fn c01_fmt_display_only() {
     let v: u8 = kani::any();
-    let mut s = Sink::new();
+    let mut s = CountSink { len: 0 };
     let _ = write!(s, "{}", tp::ECCurveType(v));
-    vassert!(s.len > 0 && !s.overflow, "C01.fmt.display_returns_text");
+    vassert!(s.len > 0, "C01.fmt.display_returns_text");
     vcover!(v == 2, "C01.cover.fmt_curve_type");
 }
 fmt16!(c01_fmt_u16_b, [tp::TlsExtensionType, tp::SignatureScheme]);
 
 /// Debug of composite values built from symbolic scalars and short slices returns.
 #[kani::proof]
-#[kani::unwind(20)]
+#[kani::unwind(12)]
 fn c01_debug_record_header_alert_signed() {
     let h = tp::TlsRecordHeader { record_type: tp::TlsRecordType(kani::any()), version: tp::TlsVersion(kani::any()), len: kani::any() };
-    let mut s = Sink::new();
+    let mut s = CountSink { len: 0 };
     let _ = write!(s, "{:?}", h);
     vassert!(s.len > 0, "C01.fmt.record_header_debug_returns");
     let a = tp::TlsMessageAlert { severity: tp::TlsAlertSeverity(kani::any()), code: tp::TlsAlertDescription(kani::any()) };
-    let mut s = Sink::new();
+    let mut s = CountSink { len: 0 };
     let _ = write!(s, "{:?}", a);
     vassert!(s.len > 0, "C01.fmt.alert_debug_returns");
     vcover!(true, "C01.cover.debug_small");
-}
-
-/// Sink that only counts bytes (no loop): the text itself is not examined by these harnesses.
-pub struct CountSink {
-    pub len: usize,
-}
-impl Write for CountSink {
-    fn write_str(&mut self, s: &str) -> core::fmt::Result {
-        self.len += s.len();
-        Ok(())
-    }
 }
 
 /// Debug of every slice-carrying extension variant on short (0..=2 byte) data returns.
